@@ -16,6 +16,9 @@ func (k msgServer) NonVotingDelegate(ctx context.Context, msg *types.MsgNonVotin
 	}
 
 	// Validate amount
+	if err := msg.Amount.Validate(); err != nil {
+		return nil, errorsmod.Wrap(sdkerrors.ErrInvalidCoins, err.Error())
+	}
 	feeDenom, err := k.feeKeeper.FeeDenom(ctx)
 	if err != nil {
 		return nil, err
